@@ -16,9 +16,9 @@ def det_inv(level, stack, count, total_limit):
     return level == len(stack) and 0 <= count and count <= total_limit
 
 
-_DET_FIELDS = {'_recursion_level': INT, '_parent_execution_funcs': Seq(_PN),
+_DET_FIELDS = {'_ghost_refused': BOOL, '_ghost_body_result': ANY, '_recursion_level': INT, '_parent_execution_funcs': Seq(_PN),
                '_funcdef_execution_counts': DictT(_PN, INT), '_execution_count': INT}
-_MOD = [('Detector', f) for f in _DET_FIELDS]
+_MOD = [('Detector', f) for f in _DET_FIELDS if not f.startswith('_ghost')]
 
 _push = Contract(
     id='C15.push_execution', prop='C15',
@@ -88,10 +88,11 @@ _pop = Contract(
 
 _push_callee = FnSpec(
     'Detector.push_execution', params=[('execution', Obj('Execution'))], ret=BOOL, pure=False, assumed=False,
-    modifies=_MOD,
+    modifies=_MOD + [('Detector', '_ghost_refused')],
     ensures=['self._recursion_level == old(self._recursion_level) + 1',
-             'self._parent_execution_funcs == old(self._parent_execution_funcs) + [execution.tree_node]'],
-    note='proved by C15.push_execution')
+             'self._parent_execution_funcs == old(self._parent_execution_funcs) + [execution.tree_node]',
+             'self._ghost_refused == result'],
+    note='proved by C15.push_execution; ghost field _ghost_refused names the verdict of the latest push')
 _pop_callee = FnSpec(
     'Detector.pop_execution', params=[], ret=None, pure=False, assumed=False, modifies=_MOD,
     requires=['len(self._parent_execution_funcs) > 0'],
@@ -103,7 +104,10 @@ _pop_callee = FnSpec(
 _func_abs = FnSpec('func', params=[('self', Obj('Execution'))], ret=ANY, pure=False, raises=['Exception'],
                    varargs=True, assumed=False,
                    note='the decorated method: abstract, may raise, may itself push/pop balanced',
-                   modifies=[('Detector', '_execution_count'), ('Detector', '_funcdef_execution_counts')])
+                   effects=['run-body'],
+                   modifies=[('Detector', '_execution_count'), ('Detector', '_funcdef_execution_counts'),
+                             ('Detector', '_ghost_body_result')],
+                   ensures=['self.inference_state.execution_recursion_detector._ghost_body_result == result'])
 
 
 def _call_func(V, st, self_val, args, kwargs, node):
@@ -125,6 +129,13 @@ _wrapper = Contract(
         'old(self.inference_state.execution_recursion_detector._recursion_level)',
         'self.inference_state.execution_recursion_detector._parent_execution_funcs == '
         'old(self.inference_state.execution_recursion_detector._parent_execution_funcs)',
+    ],
+    ensures=[
+        # refused: the default, and the body never ran; granted: the body ran and its result is returned
+        'implies(self.inference_state.execution_recursion_detector._ghost_refused, '
+        'result == default and "run-body" not in EFFECTS)',
+        'implies(not self.inference_state.execution_recursion_detector._ghost_refused, '
+        '"run-body" in EFFECTS and result == self.inference_state.execution_recursion_detector._ghost_body_result)',
     ],
     effects_allowed=None,
 )
